@@ -75,7 +75,11 @@ def _run(ctx, w):
             try:
                 got = eval_fn(hb, {names[0]: val, names[1]: dflt})
             except H.Unsupported as e:
-                got = "unsupported: %s" % e
+                try:
+                    import symeval as _SE
+                    got = _SE.Interp(w.facts).call_fn(helper, [val, dflt])
+                except H.Unsupported as e2:
+                    got = "unsupported: %s" % e2
             ctx.check(got == want, "V3", "%s(%d,%d)" % (helper, val, dflt), "%s(%d, %d) evaluates to %r, expected %r (0 means default, anything else itself)" % (helper, val, dflt, got, want),
                       loc=w.fn_loc(helper), sample={"helper": helper, "value": val, "default": dflt, "result": got})
         n = 0
